@@ -315,15 +315,15 @@ def check(repo: Repo, run: Run) -> None:
             j = jan[0].targets[0].id
             ok = f"{z}.toordinal() - {j}.toordinal()" in s
         ok = ok or f"{z}.timetuple().tm_yday - 1" in s
-    run.ob("C11.A2", "TimestampType.getDayOfYear|convention", ok, "getDayOfYear = ordinal of the zoned date minus ordinal of 1 January of the zoned year (0-based)", ct.loc(doy))
+    run.shape("C11.A2", "TimestampType.getDayOfYear|convention", ok, "getDayOfYear = ordinal of the zoned date minus ordinal of 1 January of the zoned year (0-based)", ct.loc(doy))
     run.ob("C11.A1", "TimestampType.getDayOfYear|zoned", bool(zoned), "getDayOfYear works on self.astimezone(tz_parse(tz_name))", ct.loc(doy))
     # tz_parse / tz_name_lookup wiring
     tzp = ts.get("tz_parse")
     s = ast.unparse(tzp) if tzp else ""
-    run.ob("C11.Z0", "TimestampType.tz_parse", "tz_name_lookup(tz_name)" in s and "timezone('UTC')" in s, "tz_parse: a given name is looked up, no name means UTC", ct.loc(tzp) if tzp else str(ct.path))
+    run.shape("C11.Z0", "TimestampType.tz_parse", "tz_name_lookup(tz_name)" in s and "timezone('UTC')" in s, "tz_parse: a given name is looked up, no name means UTC", ct.loc(tzp) if tzp else str(ct.path))
     tzl = ts.get("tz_name_lookup")
     s = ast.unparse(tzl) if tzl else ""
-    run.ob("C11.Z0", "TimestampType.tz_name_lookup", "except pendulum.tz.exceptions.InvalidTimezone" in s and "tz_offset_parse(tz_name)" in s,
+    run.shape("C11.Z0", "TimestampType.tz_name_lookup", "except pendulum.tz.exceptions.InvalidTimezone" in s and "tz_offset_parse(tz_name)" in s,
            "tz_name_lookup: IANA name first, +-HH:MM offset as the fallback", ct.loc(tzl) if tzl else str(ct.path))
     # Z1 -----------------------------------------------------------------
     tzo = ts.get("tz_offset_parse")
@@ -369,7 +369,7 @@ def check(repo: Repo, run: Run) -> None:
     run.ob("C11.D1", "DurationType.scale|extra", okx, f"additional units {extra} (d = 86400 s is a recorded extension)", ct.loc(dcls))
     dn = class_methods(dcls).get("__new__")
     s = ast.unparse(dn)
-    run.ob("C11.D1", "DurationType.__new__|units-from-table", "cls.scale.keys()" in s and "map(re.escape, valid_units)" in s and "key=len, reverse=True" in s,
+    run.shape("C11.D1", "DurationType.__new__|units-from-table", "cls.scale.keys()" in s and "map(re.escape, valid_units)" in s and "key=len, reverse=True" in s,
            "the units alternation is built from the table's keys, longest first", ct.loc(dn))
     # number group x scale[unit group]
     lam = [n for n in ast.walk(dn) if isinstance(n, ast.Lambda)]
@@ -387,9 +387,9 @@ def check(repo: Repo, run: Run) -> None:
             ok = bool(num_group) and bool(unit_group) and f"float({p}.group({num_group[0]})) * cls.scale[{p}.group({unit_group[0]})]" in body
         except re.error:
             ok = False
-    run.ob("C11.D1", "DurationType.__new__|number*scale[unit]", ok, "each component contributes float(number group) * scale[unit group] with the groups of the component regex", ct.loc(dn))
+    run.shape("C11.D1", "DurationType.__new__|number*scale[unit]", ok, "each component contributes float(number group) * scale[unit group] with the groups of the component regex", ct.loc(dn))
     signs = "seconds.startswith('+')" in s and "seconds.startswith('-')" in s and "sign = -1" in s and "sign * fsum(" in s
-    run.ob("C11.D1", "DurationType.__new__|sign", signs, "an optional sign applies to the whole sum", ct.loc(dn))
+    run.shape("C11.D1", "DurationType.__new__|sign", signs, "an optional sign applies to the whole sum", ct.loc(dn))
     # D2 -----------------------------------------------------------------
     dm = class_methods(dcls)
     for name, factor in (("getHours", "self.total_seconds() / 60 / 60"), ("getMinutes", "self.total_seconds() / 60"), ("getSeconds", "self.total_seconds()"), ("getMilliseconds", "self.total_seconds() * 1000")):
